@@ -38,7 +38,7 @@ def run(ctx):
         vlib.violation(ctx, "catalogue-" + c["pkg"], dict(semlib.replay_of(cmd, c), kind="a construct of the catalogue is translated to GooseLang that does not compute what Go computes"), True)
         found = True
     # generated packages
-    plan = [("default", 20), ("minigol", 12), ("minigo", 8)] if quick else [("default", 500), ("core", 300), ("minigo", 300), ("minigol", 400), ("noshadow", 200)]
+    plan = [("default", 20), ("minigol", 12), ("minigo", 8), ("minigoc", 12)] if quick else [("default", 500), ("core", 300), ("minigo", 300), ("minigol", 400), ("minigoc", 400), ("noshadow", 200)]
     evals = calls = 0
     samples = []
     for i, (profile, n) in enumerate(plan):
